@@ -373,6 +373,16 @@ def differs(a, b):
     return False
 
 
+def _huge(text):
+    for x in NUM_RX.findall(text):
+        try:
+            if abs(float(x)) > 1e15:
+                return True
+        except ValueError:
+            pass
+    return False
+
+
 def prepare_base(repo, workdir):
     base = os.path.join(workdir, 'base')
     shutil.rmtree(base, ignore_errors=True)
@@ -514,8 +524,8 @@ def attempt(prop, violations, anchors, exp, repo, workdir, timeout=420):
         call += '(' + ', '.join((['self'] if sp['recv'] else []) + [p_[0] for p_ in sp['params']]) + ')'
         best, diff = None, None
         for (inp, ob, oc, rq, eb, ec) in rows.get(q, []):
-            if re.search(r'NaN|inf', ob) or ob == 'PANIC':
-                continue        # HEAD itself is singular on this input in f64 (division by ~0, overflow): not a usable witness either way
+            if re.search(r'NaN|inf', ob) or ob == 'PANIC' or _huge(ob):
+                continue        # HEAD itself is singular on this input in f64 (division by ~0 or by rounding noise, overflow): not a usable witness either way
             req_ok = '0' not in rq and 'p' not in rq
             if sp.get('eval') and req_ok and 'u' not in rq and ec:
                 bad_k = [k for k in range(len(ec)) if ec[k] == '0' and k < len(eb) and eb[k] == '1']
